@@ -328,10 +328,11 @@ cp_rows(('MrrcMrrc2A1', 'MrrcMrrc2A2', 'MrrcMrrc2T1', 'MrrcMrrc2T2'), 'mrrc',
         unpred=lambda f, S: z3.Or(f['Rt'] == 15, f['Rt2'] == 15, f['Rt'] == f['Rt2']),
         unpred_t=lambda f, S: z3.Or(badreg(f['Rt']), badreg(f['Rt2']), f['Rt'] == f['Rt2']))
 
-# LDC / STC: P U D W = 0000 UNDEFINED, 0010 is MCRR / MRRC
+# LDC / STC: P U D W = 0010 is MCRR / MRRC; 0000 is UNDEFINED: the decode tables (A5-22 / A6-31) list it as a
+# separate UNDEFINED entry, the repository's decoders reject it before a class is selected, so it is kept out of
+# the rows' domain (the decode-level checks own it)
 pudw = lambda f: cat(f['P'], f['U'], f['D'], f['W'])
-ls_guard = lambda f: pudw(f) != 0b0010
-ls_undef = lambda f, S: pudw(f) == 0
+ls_guard = lambda f: z3.And(pudw(f) != 0b0010, pudw(f) != 0)
 
 
 def ldst_rows(names, kind, body, guard, unpred, unpred_t):
@@ -341,18 +342,18 @@ def ldst_rows(names, kind, body, guard, unpred, unpred_t):
         if name is None:
             continue
         g = guard if is2 else (lambda f, guard=guard: z3.And(not_fp(f), guard(f)))
-        ud = (lambda f, S: z3.Or(ls_undef(f, S), is_fp(f, S))) if is2 else ls_undef
+        ud = is_fp if is2 else None
         Enc(name, iset, head + ' ' + body, family=FAM, guard=g, undefined=ud,
             unpred=(unpred_t if iset == 'T32' else unpred), sem=cp_sem(kind, is2), notimpl=cp_notimpl(kind, is2))
 
 
-ldst_rows(('LdcImmediateA1', 'LdcLdc2ImmediateA2', 'LdcLdc2ImmediateT1', 'LdcLdc2ImmediateT2'), 'ldc',
+ldst_rows(('LdcLdc2ImmediateA1', 'LdcLdc2ImmediateA2', 'LdcLdc2ImmediateT1', 'LdcLdc2ImmediateT2'), 'ldc',
           '110 P U D W 1 Rn CRd coproc imm8', lambda f: z3.And(ls_guard(f), f['Rn'] != 15), None, None)
 lit_unp_a = lambda f, S: f['W'] == 1
 lit_unp_t = lambda f, S: z3.Or(f['W'] == 1, f['P'] == 0)
-ldst_rows(('LdcLiteralA1', 'LdcLdc2LiteralA2', 'LdcLdc2LiteralT1', 'LdcLdc2LiteralT2'), 'ldc',
+ldst_rows(('LdcLdc2LiteralA1', 'LdcLdc2LiteralA2', 'LdcLdc2LiteralT1', 'LdcLdc2LiteralT2'), 'ldc',
           '110 P U D W 1 1111 CRd coproc imm8', ls_guard, lit_unp_a, lit_unp_t)
-ldst_rows(('StcA1', 'StcStc2A2', 'StcStc2T1', 'StcStc2T2'), 'stc', '110 P U D W 0 Rn CRd coproc imm8', ls_guard,
+ldst_rows(('StcStc2A1', 'StcStc2A2', 'StcStc2T1', 'StcStc2T2'), 'stc', '110 P U D W 0 Rn CRd coproc imm8', ls_guard,
           lambda f, S: z3.And(f['Rn'] == 15, f['W'] == 1), lambda f, S: f['Rn'] == 15)
 
 
